@@ -5,7 +5,7 @@ from .common import (CLIENTS, REAL_NET, STUB_NET, ASSUME_NET, gen_config, refere
 ID = "C12"
 ENGINE = "netsim"
 LEVEL = "exploration"
-RUNS = {"quick": 30000, "thorough": 800000}
+RUNS = {"quick": 24000, "thorough": 800000}
 BUDGET_S = {"quick": 40, "thorough": 420}
 BATCH = 50
 RULE = ("one run = one seeded plan: client type x decoder settings x a stream of valid/malformed/unknown packets "
